@@ -67,8 +67,9 @@ impl Scenario {
         self
     }
     /// store-buffer model: a non-SeqCst store may be held back (costed deviation), see EngineCfg::tso
-    pub fn tso(mut self) -> Self {
+    pub fn tso(mut self, files: &'static [&'static str]) -> Self {
         self.cfg.tso = true;
+        self.cfg.tso_files = files;
         self
     }
     /// std::thread::park may return spuriously: offered as a costed deviation
